@@ -463,6 +463,18 @@ def genFork (rng : Rng) (len : Nat) : Rng × Array String :=
     else if scenario = 2 then s
     else if scenario = 3 then ((List.range (len / 2)).foldl (fun s _ => s.stepRandom p) s).dangling
     else (List.range (len / 2)).foldl (fun s _ => s.stepRandom p) s
+  -- now and then the last thing asked before a vertex was collected is a `kid()` of it, and the id is created again before the
+  -- clone: whatever the original remembers of its look-ups, both copies answer from the graph
+  let (rng, memo) := s.rng.below 5
+  let s := { s with rng := rng }
+  let freeM := (List.range s.cap).filter (· ∉ s.r.ids)
+  let (s, memoQ) : GenSt × Array String := match memo, freeM with
+    | 0, a :: b :: _ =>
+      let l : Label := s.labels.headD (.alpha 0)
+      (match s.tryOps [.add a, .add b, .bind a b l, .put b (Hx.Hex.ofBytes [1]), .kid a l, .data b, .add a] with
+       | some x => (x, #[s!"kid g0 {a} {showLabelTok l}", s!"kid g1 {a} {showLabelTok l}", s!"kids g0 {a}", s!"kids g1 {a}"])
+       | none => (s, #[]))
+    | _, _ => (s, #[])
   -- one time in four the graph that is cloned came out of `load()` (whatever `save` does not write starts afresh in it:
   -- a clone must copy the graph as it is, not as its unsaved bookkeeping describes it), with a few calls on it since
   let (rng, viaLoad) := s.rng.below 4
@@ -484,7 +496,7 @@ def genFork (rng : Rng) (len : Nat) : Rng × Array String :=
       let s := { s with lines := s.lines.push "clone g0 g1" }
       (List.range 8).foldl (fun s _ => s.stepRandom profGc) s
     else s
-  let s := { s with lines := s.lines.push "clone g0 g1" }
+  let s := { s with lines := s.lines.push "clone g0 g1" ++ memoQ }
   let s := cloneQueries s "g0" "g1" 2
   let s := twoHandles s false p (len / 4) (len / 4)
   (s.rng, s.lines)
@@ -654,10 +666,10 @@ def genMerge (rng : Rng) (broken : Bool) : Rng × Array String :=
   let capL := if tight = 0 then kl + 1 + slack else capBig
   let (rng, extraR) := rng.below 6
   -- breakage of the right graph (mode 4: more lone vertices than a group can have members)
-  let (rng, mode) := rng.below 6
+  let (rng, mode) := rng.below 7
   let (rng, many) := rng.below 8
   let many := 14 + many
-  let capR := kr + 1 + extraR + 3 + (if broken ∧ mode = 4 then many else 0)
+  let capR := kr + 1 + extraR + 3 + (if broken ∧ mode = 4 then many else 0) + (if broken ∧ mode = 6 then 4 else 0)
   -- one merge in four (never a tight one) has its two trees at the top of large, sparse capacities
   let (rng, hrL) := rng.pick [0, 0, 0, 0, 0, 0, 0, 60, 64, 90, 200, 300, 1000]
   let (rng, hrR) := rng.pick [0, 57, 64, 100, 180, 290, 990]
@@ -736,6 +748,13 @@ def genMerge (rng : Rng) (broken : Bool) : Rng × Array String :=
       -- a lone extra vertex whose datum was read already (present, ungrouped, nothing unread), beside another one
       | 5, a :: b :: _ => match s1.tryOps [.add a, .put a (Hx.Hex.ofBytes [5, 5, 5]), .data a, .add b] with | some x => x | none => s1
       | 5, a :: _ => match s1.tryOps [.add a, .put a (Hx.Hex.ofBytes [5, 5, 5]), .data a] with | some x => x | none => s1
+      -- a detached sub-tree whose root is pointed to by a vertex of a third group that was collected since: the edge is still
+      -- in the slot of the absent vertex, the sub-tree is present and unreachable
+      | 6, a :: b :: c :: d :: _ =>
+        match s1.tryOps [.add a, .add b, .bind a b (.alpha 0), .add c, .add d, .bind c d (.alpha 0), .bind c a (.alpha 1),
+            .put d (Hx.Hex.ofBytes [6, 6]), .data d] with
+        | some x => x
+        | none => s1
       | _, _ => s1
     else s1
   let (rng, left) := s1.rng.pick (tl.map (·.id))
